@@ -8,6 +8,7 @@ import Momtrop.Props.C12
 import Momtrop.Props.C13BM
 import Momtrop.Props.C14
 import Mathlib.MeasureTheory.Function.JacobianOneDim
+import Mathlib.Analysis.SpecialFunctions.Pow.Deriv
 /-!
 # C01 — the estimator is unbiased (partial: algebraic reduction)
 
@@ -53,6 +54,52 @@ theorem inverse_cdf_law (F F' G : ℝ → ℝ) (hF : ∀ x ∈ Set.Ioi (0:ℝ), 
   have : G (F x) = x := hinj h1 hx h2
   simp only [this]
 
+/-- **One step of the sector sample**: if `ξ` is uniform on `(0,1)` then `y = c·ξ^(1/ω)` has density `ω·y^(ω−1)/c^ω` on `(0,c)`. -/
+theorem xi_power_law (c ω : ℝ) (hc : 0 < c) (hω : 0 < ω) (f : ℝ → ENNReal) :
+    ∫⁻ ξ in Set.Ioo (0:ℝ) 1, f (c * ξ ^ (1 / ω)) = ∫⁻ y in Set.Ioo (0:ℝ) c, ENNReal.ofReal (ω * y ^ (ω - 1) / c ^ ω) * f y := by
+  have himg : (fun y : ℝ => (y / c) ^ ω) '' Set.Ioo 0 c = Set.Ioo (0:ℝ) 1 := by
+    ext p
+    constructor
+    · rintro ⟨y, ⟨h0, h1⟩, rfl⟩
+      have hy : 0 < y / c := div_pos h0 hc
+      refine ⟨Real.rpow_pos_of_pos hy ω, ?_⟩
+      exact Real.rpow_lt_one hy.le ((div_lt_one hc).mpr h1) hω
+    · rintro ⟨h0, h1⟩
+      refine ⟨c * p ^ (1 / ω), ⟨mul_pos hc (Real.rpow_pos_of_pos h0 _), ?_⟩, ?_⟩
+      · have : p ^ (1 / ω) < 1 := Real.rpow_lt_one h0.le h1 (by positivity)
+        nlinarith
+      · show (c * p ^ (1 / ω) / c) ^ ω = p
+        rw [mul_div_assoc, mul_comm, div_mul_cancel₀ _ hc.ne', ← Real.rpow_mul h0.le, one_div, inv_mul_cancel₀ hω.ne', Real.rpow_one]
+  rw [← himg, lintegral_image_eq_lintegral_abs_deriv_mul (f' := fun y => ω * y ^ (ω - 1) / c ^ ω) measurableSet_Ioo]
+  · apply setLIntegral_congr_fun measurableSet_Ioo
+    intro y hy
+    have hy0 : 0 < y := hy.1
+    have hpos : 0 ≤ ω * y ^ (ω - 1) / c ^ ω := by positivity
+    simp only [abs_of_nonneg hpos]
+    congr 2
+    have : ((y / c) ^ ω) ^ (1 / ω) = y / c := by
+      rw [← Real.rpow_mul (div_pos hy0 hc).le, one_div, mul_inv_cancel₀ hω.ne', Real.rpow_one]
+    rw [this, mul_div_cancel₀ _ hc.ne']
+  · intro y hy
+    have hy0 : 0 < y := hy.1
+    have h1 : HasDerivAt (fun y : ℝ => y / c) (1 / c) y := (hasDerivAt_id y).div_const c
+    have h2 := (Real.hasDerivAt_rpow_const (x := y / c) (p := ω) (Or.inl (div_pos hy0 hc).ne')).comp y h1
+    have hval : ω * (y / c) ^ (ω - 1) * (1 / c) = ω * y ^ (ω - 1) / c ^ ω := by
+      rw [Real.div_rpow hy0.le hc.le]
+      have hcω : c ^ ω = c ^ (ω - 1) * c := by
+        rw [← Real.rpow_add_one hc.ne']; ring_nf
+      rw [hcω]
+      have := (Real.rpow_pos_of_pos hc (ω - 1)).ne'
+      field_simp
+    have h3 : HasDerivAt (fun y : ℝ => (y / c) ^ ω) (ω * y ^ (ω - 1) / c ^ ω) y := h2.congr_deriv hval
+    exact h3.hasDerivWithinAt
+  · intro x hx y hy h
+    have hx0 : 0 < x / c := div_pos hx.1 hc
+    have hy0 : 0 < y / c := div_pos hy.1 hc
+    have := (Real.rpow_left_injOn hω.ne') hx0.le hy0.le h
+    field_simp at this
+    exact this
+
 /-- The ingredients of the unbiasedness derivation, each a theorem about the model (see the modules). -/
 structure Reduction : Prop where
   /-- (i) the three coordinate groups are read disjointly: `2E−2` + 1 + `DL(+1)` -/
@@ -76,6 +123,9 @@ structure Reduction : Prop where
   icdf : ∀ (F F' G : ℝ → ℝ), (∀ x ∈ Set.Ioi (0:ℝ), HasDerivWithinAt F (F' x) (Set.Ioi 0) x) → Set.InjOn F (Set.Ioi 0) →
       F '' Set.Ioi 0 = Set.Ioo 0 1 → (∀ p ∈ Set.Ioo (0:ℝ) 1, G p ∈ Set.Ioi (0:ℝ) ∧ F (G p) = p) → ∀ f : ℝ → ENNReal,
       ∫⁻ p in Set.Ioo (0:ℝ) 1, f (G p) = ∫⁻ x in Set.Ioi (0:ℝ), ENNReal.ofReal (_root_.abs (F' x)) * f x
+  /-- (ii') one step of the sector sample: `y = c·ξ^(1/ω)` with uniform `ξ` has density `ω y^(ω-1)/c^ω` on `(0,c)` -/
+  xiLaw : ∀ (c ω : ℝ), 0 < c → 0 < ω → ∀ f : ℝ → ENNReal,
+      ∫⁻ ξ in Set.Ioo (0:ℝ) 1, f (c * ξ ^ (1 / ω)) = ∫⁻ y in Set.Ioo (0:ℝ) c, ENNReal.ofReal (ω * y ^ (ω - 1) / c ^ ω) * f y
   /-- (v) at the returned momenta the weighted propagator sum is `c²|q|² + (pᵀXp − uᵀL⁻¹u)` -/
   momenta : ∀ {E L : ℕ} (S : Matrix (Fin E) (Fin L) ℝ) (x p : Fin E → ℝ) (q : Fin L → ℝ) (c : ℝ)
       (Li Qti : Matrix (Fin L) (Fin L) ℝ), lMat S x * Li = 1 → Qtiᵀ * lMat S x * Qti = 1 →
@@ -103,6 +153,7 @@ theorem reduction : Reduction where
   gauss := fun a b h0 h1 => C13.box_muller_radius a b h0 h1
   gaussLaw := fun f hf => C13.boxMuller_law_model f hf
   icdf := fun F F' G h1 h2 h3 h4 f => inverse_cdf_law F F' G h1 h2 h3 h4 f
+  xiLaw := fun c ω hc hω f => xi_power_law c ω hc hω f
   momenta := fun S x p q c Li Qti h1 h2 => C10.propSum_at_sample S x p q c Li Qti h1 h2
   momentaLaw := fun Lm Qti Li c hc hQ hs u f hf => C10.momenta_law Lm Qti Li c hc hQ hs u f hf
   jac := fun Lm Qti c h => det_momentum_map Lm Qti c h
